@@ -71,3 +71,24 @@ Theorem C08_frozen : forall s sa code b,
   code <> sa_code sa -> tracked (fst (handle_keysim s sa)) (code, b) = tracked s (code, b).
 Proof. exact keysim_other_code. Qed.
 Print Assumptions C08_frozen.
+
+(* ---- The FULL machine (float layer + state machine, [frun]; see C01_machine_bridge), arbitrary deadzones and axis ranges:
+   never both directions of an axis together, after every raw history ... *)
+From HIDI Require Import Model.AnalogF Proofs.MachineBridge.
+
+Theorem C08_machine_exclusive : forall c fc ai h st outs code,
+  frun c fc ai h = Some (st, outs) ->
+  tracked (fst st) (code, false) = None \/ tracked (fst st) (code, true) = None.
+Proof. exact machine_exclusive. Qed.
+Print Assumptions C08_machine_exclusive.
+
+(* ... and pairing for one EV_ABS event of a key-emulating axis in any state of the full machine: every message of the step is
+   the Note Off of exactly the pair recorded when that direction was turned on, or a Note On whose pair is recorded.
+   (The tracker is keyed by the evdev code and the direction, not by the sub-handler: as in Go.) *)
+Theorem C08_machine_pairing : forall c fc ai s fs sub code raw s' fs' o a m,
+  fstep c fc ai (s, fs) (FAbs sub code raw) = Some ((s', fs'), o) ->
+  find_analog c s sub code = Some a -> a_type a = AKeySim -> In m (midi o) ->
+  (exists b n ch, tracked s (code, b) = Some (n, ch) /\ m = note_off ch n) \/
+  (exists b n ch, tracked s (code, b) = None /\ tracked s' (code, b) = Some (n, ch) /\ m = note_on ch n 64).
+Proof. exact machine_pairing. Qed.
+Print Assumptions C08_machine_pairing.
